@@ -184,9 +184,12 @@ def recipes():
     R['RDMs.get_matrices'] = lambda k: ([k.rdms()], {})
     R['RDMs.get_vectors'] = lambda k: ([k.rdms()], {})
     R['RDMs.mean'] = lambda k: ([k.rdms(nan=k.variant >= 1)], {'weights': [None, 'wt', np.full((4, 15), 2.0)][k.variant % 3]})
-    R['RDMs.subset'] = lambda k: ([k.rdms(), 'subj', 's0'], {})
+    # variant 1: the selection keeps EVERYTHING (a complete label list, a full fold) -- where a "nothing to drop"
+    # shortcut would hand back the source's own array (seeded change C12-ac)
+    R['RDMs.subset'] = lambda k: ([k.rdms(), 'subj', 's0' if k.variant != 1 else ['s0', 's1']], {})
     R['RDMs.subsample'] = lambda k: ([k.rdms(), 'uid', [10, 10, 12]], {})
-    R['RDMs.subset_pattern'] = lambda k: ([k.rdms(), 'cond', ['c0', 'c2', 'c3']], {})
+    R['RDMs.subset_pattern'] = lambda k: ([k.rdms(), 'cond', ['c0', 'c2', 'c3'] if k.variant != 1 else
+                                           [f'c{i}' for i in range(6)]], {})
     R['RDMs.subsample_pattern'] = lambda k: ([k.rdms(), 'cond', ['c0', 'c0', 'c2', 'c3']], {})
     R['RDMs.to_df'] = lambda k: ([k.rdms()], {})
     R['RDMs.to_dict'] = lambda k: ([k.rdms()], {})
@@ -250,8 +253,9 @@ def recipes():
     R['Dataset.get_measurements_tensor'] = lambda k: ([k.dataset(), 'cond'], {})
     R['Dataset.split_obs'] = lambda k: ([k.dataset(), 'cond'], {})
     R['Dataset.split_channel'] = lambda k: ([k.dataset(), 'roi'], {})
-    R['Dataset.subset_obs'] = lambda k: ([k.dataset(), 'cond', [0, 2]], {})
-    R['Dataset.subset_channel'] = lambda k: ([k.dataset(), 'ch', ['v0', 'v3']], {})
+    R['Dataset.subset_obs'] = lambda k: ([k.dataset(), 'cond', [0, 2] if k.variant != 1 else [0, 1, 2, 3]], {})
+    R['Dataset.subset_channel'] = lambda k: ([k.dataset(), 'ch', ['v0', 'v3'] if k.variant != 1 else
+                                              [f'v{i}' for i in range(5)]], {})
     R['Dataset.sort_by'] = lambda k: ([k.dataset(), 'cond'], {})
     R['Dataset.odd_even_split'] = lambda k: ([k.dataset(), 'cond'], {})
     R['Dataset.nested_odd_even_split'] = lambda k: ([k.dataset(), 'fold', 'cond'], {})
